@@ -107,4 +107,103 @@ theorem refines_fifo {s s' : State} {a : Action} (h : Inv s) (e : act s a = some
         · simp at hl
       · simp at hl
 
+/-- `Recv` reports "closed and drained" only when the queue is closed and every linearised item has
+been claimed by a receiver (or the caller's context is cancelled). -/
+theorem recv_false_drained {s s' : State} {a : Action} {t : Tid} (h : Inv s) (e : act s a = some s')
+    (hlog : s'.log = s.log ++ [.recvRet t none]) :
+    s.cancelled t = true ∨ (s.done = true ∧ s.tail = s.head ∧ absQ s = []) := by
+  have hx := fun n => extend_abs s n
+  cases a with
+  | call t op => simp only [act] at e; split at e <;> simp at e; subst e; simp [addLog, setPc] at hlog
+  | cancel t => simp only [act] at e; simp at e; subst e; simp at hlog
+  | ctxWake t =>
+    simp only [act] at e
+    split at e
+    · split at e <;> simp at e <;> subst e <;> simp [setPc] at hlog
+    · simp at e
+  | step t' =>
+    simp only [act] at e
+    unfold stepT at e
+    split at e <;> rename_i hpc
+    all_goals (try dsimp only at e)
+    all_goals (repeat' (split at e))
+    all_goals (try (simp at e))
+    all_goals (try subst e)
+    all_goals (try (simp [addLog, setPc, enter, leave, setSlot, hx] at hlog))
+    all_goals (try (exfalso; split at hlog <;> simp at hlog))
+    -- the one remaining case: rLoop, diff < 0, done ∨ cancelled
+    rename_i pos hne hlt hdc
+    subst hlog
+    by_cases hc : s.cancelled t' = true
+    · exact Or.inl hc
+    · right
+      have hd : s.done = true := by simpa [hc] using hdc
+      have hp := h.rPosL t' pos hpc
+      have ht : pos = s.tail := by
+        by_cases e2 : pos < s.tail
+        · have := h.old pos e2; simp only [sq] at this; omega
+        · omega
+      have hh : s.tail = s.head := by
+        by_cases e2 : s.tail < s.head
+        · rcases h.queue s.tail (Nat.le_refl _) e2 with ⟨q1, _⟩ | ⟨_, t2, q2⟩
+          · simp only [sq] at q1; rw [← ht] at q1; omega
+          · have := h.doneDeep hd t2
+            cases e3 : s.pc t2 <;> simp [e3, sOwn, sDeep] at q2 this
+        · have := h.ht; omega
+      refine ⟨hd, hh, ?_⟩
+      have := h.len
+      simp only [absQ]
+      exact List.drop_eq_nil_of_le (by omega)
+
+/-- **Sends after close fail.**  Once `done` is set no action linearises a send, `done` stays set,
+no `Send` returns true, and no goroutine sends on a closed wake-up channel. -/
+theorem closed_no_enq {s s' : State} {a : Action} (h : Inv s) (hd : s.done = true)
+    (e : act s a = some s') :
+    s'.sent = s.sent ∧ s'.done = true ∧ s'.panicked = s.panicked ∧
+    (∀ t v, s'.log ≠ s.log ++ [.sendRet t v true]) := by
+  have hx := fun n => extend_abs s n
+  cases a with
+  | call t op => simp only [act] at e; split at e <;> simp at e; subst e; simp [addLog, setPc, hd]
+  | cancel t => simp only [act] at e; simp at e; subst e; simp [hd]
+  | ctxWake t =>
+    simp only [act] at e
+    split at e
+    · split at e <;> simp at e <;> subst e <;> simp [setPc, hd]
+    · simp at e
+  | step t' =>
+    have hdeep := h.doneDeep hd t'
+    simp only [act] at e
+    unfold stepT at e
+    split at e <;> rename_i hpc <;> simp only [hpc, sDeep] at hdeep
+    all_goals (try dsimp only at e)
+    all_goals (repeat' (split at e))
+    all_goals (try (simp at e))
+    all_goals (try subst e)
+    all_goals (try (simp [addLog, setPc, enter, leave, setSlot, hx, hd]))
+    all_goals simp_all
+
+/-- the send-on-closed-channel panic is unreachable: `panicked` never changes -/
+theorem panicked_const {s s' : State} {a : Action} (h : Inv s) (e : act s a = some s') :
+    s'.panicked = s.panicked := by
+  have hx := fun n => extend_abs s n
+  cases a with
+  | call t op => simp only [act] at e; split at e <;> simp at e; subst e; simp [addLog, setPc]
+  | cancel t => simp only [act] at e; simp at e; subst e; simp
+  | ctxWake t =>
+    simp only [act] at e
+    split at e
+    · split at e <;> simp at e <;> subst e <;> simp [setPc]
+    · simp at e
+  | step t' =>
+    have hdeep := fun hd => h.doneDeep hd t'
+    simp only [act] at e
+    unfold stepT at e
+    split at e <;> rename_i hpc <;> simp only [hpc, sDeep] at hdeep
+    all_goals (try dsimp only at e)
+    all_goals (repeat' (split at e))
+    all_goals (try (simp at e))
+    all_goals (try subst e)
+    all_goals (try (simp [addLog, setPc, enter, leave, setSlot, hx]))
+    all_goals simp_all
+
 end OpenFGAVerif.Proofs.Mpmc
